@@ -410,6 +410,11 @@ func init() {
 			return in.zeroResults(fn)
 		})
 	}
+	for _, n := range []string{"strings.Clone", "internal/stringslite.Clone"} {
+		reg(n, func(in *Interp, caller *frame, pos token.Pos, fn *ssa.Function, args []Value) Value {
+			return args[0]
+		})
+	}
 	reg("time.Sleep", func(in *Interp, caller *frame, pos token.Pos, fn *ssa.Function, args []Value) Value {
 		in.yield()
 		return nil
